@@ -59,13 +59,20 @@ fn run_schedule(sched: &Value, out: &mut Out, id: usize) -> bool {
         Some(a) if !a.is_empty() => a.iter().map(|r| { let v: Vec<i32> = r.as_array().map(|x| x.iter().map(|y| y.as_i64().unwrap_or(0) as i32).collect()).unwrap_or_default(); [v[0], v[1], v[2], v[3]] }).collect(),
         _ => rects(cfg),
     };
+    // pixel size of every image: whole cells of 8 x 16 pixels unless the witness gives sizes that are not multiples of the cell
+    let px: Vec<[i32; 2]> = match sched["px"].as_array() {
+        Some(a) if a.len() == rs.len() => a.iter().map(|p| [p[0].as_i64().unwrap_or(8) as i32, p[1].as_i64().unwrap_or(16) as i32]).collect(),
+        _ => rs.iter().map(|r| [(r[2] - r[0] + 1) * 8, (r[3] - r[1] + 1) * 16]).collect(),
+    };
+    // the rectangles reported to the trace are PIXEL rectangles (inclusive corners): the shadow rule is about pixels
+    let prs: Vec<Vec<i32>> = rs.iter().zip(px.iter()).map(|(r, p)| vec![r[0] * 8, r[1] * 16, r[0] * 8 + p[0] - 1, r[1] * 16 + p[1] - 1]).collect();
     let hist = sched["hist"].as_array().cloned().unwrap_or_default();
     verif::sixel_gate_enable(true);
     let mut buf = Buffer::create((80, 25));
     buf.is_terminal_buffer = true;
     let mut caret = Caret::default();
     let mut parser = ansi::Parser::default();
-    out.ev(&json!({"ev":"reset","case":id,"rect":cfg,"k":sched["k"],"rects":rs.iter().map(|r| r.to_vec()).collect::<Vec<_>>()}));
+    out.ev(&json!({"ev":"reset","case":id,"rect":cfg,"k":sched["k"],"rects":prs}));
     let mut submitted: Vec<usize> = vec![];
     let mut was_blocked = false;
     let mut popped = 0usize; // handles no longer in the queue (delivered or cleared)
@@ -76,7 +83,7 @@ fn run_schedule(sched: &Value, out: &mut Out, id: usize) -> bool {
         match name {
             "submit" => {
                 let r = rs[arg - 1];
-                let s = format!("\x1b[{};{}H\x1bP0;0;0q\"{};1;{};{}#0?\x1b\\", r[1] + 1, r[0] + 1, arg, (r[2] - r[0] + 1) * 8, (r[3] - r[1] + 1) * 16);
+                let s = format!("\x1b[{};{}H\x1bP0;0;0q\"{};1;{};{}#0?\x1b\\", r[1] + 1, r[0] + 1, arg, px[arg - 1][0], px[arg - 1][1]);
                 for ch in s.chars() {
                     let _ = parser.print_char(&mut buf, 0, &mut caret, ch);
                 }
